@@ -82,10 +82,17 @@ def gen_cases(items, rng, par, stats=None):
         n = par['values']
         if it['kind'] == 'enum':
             n = max(n, min(40, 2 * len(it['variants'])))
+        forced = []
+        if it['kind'] == 'enum':
+            nv = len(it['variants'])
+            # every variant of small enums at least once; of large ones a spread over the whole range plus the
+            # boundaries (a tag computed through i8, an arm table off by one at the end, a fold over many implicit successors)
+            forced = list(range(nv)) if nv <= n else sorted(set([(k * nv) // n for k in range(n)] + [x for x in (0, 1, 126, 127, 128, 129, 254, 255, nv - 2, nv - 1) if 0 <= x < nv]))
+            n = max(n, len(forced))
         for j in range(n):
             v = gen_val(vt, rng, par['size'])
-            if it['kind'] == 'enum' and j < len(it['variants']):
-                v = ('v', j, gen_val(vt[2][j], rng, par['size']))     # every variant of small enums at least once
+            if j < len(forced):
+                v = ('v', forced[j], gen_val(vt[2][forced[j]], rng, par['size']))
             rng2 = random.Random('%d/%d/%d' % (tid, j, len(items)))
             if it['kind'] == 'struct':
                 nondefault_skipped(vt, v, rng2, par['size'], stats)
